@@ -3,6 +3,32 @@
 import json, os
 
 CLAIMS = {
+    "C01": dict(
+        category="translation_validation", engine="P",
+        technique="symbolic execution of the real optimised and unoptimised task graphs over symbolic tables; z3 decides result equivalence per optimiser stage; counterexamples replayed through real compute",
+        text="Translation validation of the real planner: for every program of a bounded family the real optimize_until/lower_completely output of each stage is "
+             "executed symbolically (cells, null flags symbolic) and z3 proves it equal to the unoptimised lowered plan for all table contents within the row bound; "
+             "planning or task failures that the unoptimised plan does not have are replayed and reported.",
+        note="Trusted: symdf models of pandas/dask leaf callables (validated per program against real execution on seeded tables). Bounds: <=5 rows/input, <=3 partitions, "
+             "operator depth <=2, integer-valued numerics with NaN; strings/categoricals/datetimes, quantile-based planning, disk/p2p shuffles outside.",
+        design="§4 C01",
+    ),
+    "C14": dict(
+        category="translation_validation", engine="P",
+        technique="symbolic execution of fused vs unfused real task graphs; z3 decides per-partition sequence equality",
+        text="For every partitionwise DAG of a bounded family the fused plan (real optimize_blockwise_fusion, nested Fused._task sub-graphs interpreted as Fused._execute_task does) "
+             "is proved equal, partition by partition and in row order, to optimize(fuse=False) for all table contents; npartitions, divisions and meta are compared concretely.",
+        note="Trusted: symdf leaf models. Bounds: <=5 rows/input, <=3 partitions, DAG shapes listed in families/f14.py.",
+        design="§4 C14",
+    ),
+    "C19": dict(
+        category="model_checking", engine="P+K",
+        technique="z3 equivalence of once- vs twice-optimised real plans over symbolic tables; CrossHair on the real fixed-point drivers with a symbolic rewrite table",
+        text="Idempotence is decided for all data on a bounded program family (optimize(optimize(q)) == optimize(q), same plan name on repetition); the convergence drivers "
+             "Expr.simplify / Expr.lower_completely are executed by CrossHair on stub nodes with an arbitrary symbolic successor table (cycle must be reported, fixpoint must be returned, no spinning).",
+        note="Termination of the rule system on all programs is outside the claim (needs a ranking argument); bounds: 4 node names in the driver model, F01 family sizes.",
+        design="§4 C19",
+    ),
     "C13": dict(
         category="model_checking", engine="K+T+P",
         technique="symbolic execution of the real repartition planners with CrossHair/z3 (division values, tracked rows symbolic); cvc5 QF_BVFP lemma for the float boundary formula",
